@@ -17,7 +17,10 @@ pub use snapshot::ServerContextSnapshot;
 pub use status_bar::ProgressTask;
 pub use status_bar::StatusBar;
 use std::{collections::HashMap, future::Future, sync::Arc};
+#[cfg(not(feature = "verif-hooks"))]
 use tokio::sync::{Mutex, RwLock};
+#[cfg(feature = "verif-hooks")]
+use crate::verif::{Mutex, RwLock};
 use tokio_util::sync::CancellationToken;
 pub use workspace_manager::*;
 
@@ -169,6 +172,8 @@ impl ServerContext {
         let cancellations = self.cancellations.clone();
 
         tokio::spawn(async move {
+            #[cfg(feature = "verif-hooks")]
+            crate::verif::sched_point("request-task-start").await;
             let res = exec(cancel_token.clone()).await;
             if cancel_token.is_cancelled() {
                 let response = Response::new_err(
